@@ -64,6 +64,7 @@ pub use serde;
 pub use serde_json;
 
 pub mod gen;
+pub mod libfuzzer;
 pub mod wire;
 
 #[derive(Clone, Copy, Debug, PartialEq, Eq)]
@@ -1007,6 +1008,16 @@ impl Session {
             floor: 0.0,
             wall_s,
         });
+    }
+
+    /// Stores `case` as a replay file of sub-check `sub` and reports it as a violation (for cases
+    /// found by an external engine and confirmed through the sub-check's own oracle).
+    pub fn report_case<T: Serialize>(&mut self, sub: &str, case: &T, failure: Failure) {
+        if self.is_known(&failure.signature) {
+            return;
+        }
+        let path = self.write_violation(sub, case, &failure);
+        self.record_violation(sub, path, failure);
     }
 
     /// Reports a violation found by an external engine; `path` is its replay file.
